@@ -91,4 +91,28 @@ example : (((Forest.init [.coll, .coll, .src, .sens]).step (.add 1 [3] false)).1
 example : ((((Forest.init [.coll, .coll, .src, .sens]).step (.add 1 [3] false)).1.step (.add 0 [2, 1] false)).1.step
     (.add 1 [0] true)).2 = false := by decide
 
+
+/-- (added by the audit) `views_are_partitions` above only says "in at least one view" and "each view is a sublist";
+this is the full clause of the property: the stored `_sources` / `_sensors` / `_collections` ARE the ordered typed
+filters of `_children` (same order, same multiplicity), hence pairwise disjoint — every child appears in exactly
+one of them, exactly as often as in `children` (once, by `unique_parent_listed_once`). -/
+theorem views_are_typed_filters (s : Forest) (h : s.Inv) (c : Nat) :
+    (s.srcs c = (s.children c).filter (fun o => s.kind o = .src) ∧
+     s.sens c = (s.children c).filter (fun o => s.kind o = .sens) ∧
+     s.colls c = (s.children c).filter (fun o => s.kind o = .coll)) ∧
+    (∀ o, ¬ (o ∈ s.srcs c ∧ o ∈ s.sens c) ∧ ¬ (o ∈ s.srcs c ∧ o ∈ s.colls c) ∧ ¬ (o ∈ s.sens c ∧ o ∈ s.colls c)) := by
+  obtain ⟨h1, h2, h3⟩ := h.views c
+  refine ⟨⟨h1, h2, h3⟩, fun o => ?_⟩
+  rw [h1, h2, h3]
+  simp only [List.mem_filter, decide_eq_true_eq]
+  refine ⟨?_, ?_, ?_⟩ <;> rintro ⟨⟨_, ha⟩, ⟨_, hb⟩⟩ <;> rw [ha] at hb <;> cases hb
+
+-- non-vacuity of `no_collection_contains_itself` / `unique_parent_listed_once` / `views_are_typed_filters`: the
+-- reachable state "collection 0 = [source 2, collection 1 = [sensor 3]]" is consistent and acyclic (by
+-- `inv_reachable`), and collection 1 has parent 0
+example :
+    let s := ([FOp.add 1 [3] false, FOp.add 0 [2, 1] false].foldl (fun s op => (s.step op).1) (Forest.init [.coll, .coll, .src, .sens]))
+    s.Inv ∧ s.Acyclic ∧ s.parent 1 = some 0 ∧ s.srcs 0 = [2] ∧ s.colls 0 = [1] :=
+  ⟨(inv_reachable _ _).1, (inv_reachable _ _).2, by decide, by decide, by decide⟩
+
 end MagpyVerif.C11
